@@ -427,10 +427,11 @@ def restoreFrom (s : Store) (p : Snap) : Option Store :=
     match p.group with
     | none => none     -- unreachable: a stored SQL snapshot always has its groups row
     | some g =>
-      if groups'.any (·.nid == g.nid) then none            -- UNIQUE(nostr_group_id): rolled back
+      -- UNIQUE(nostr_group_id) against the other groups: the statement fails and the txn is rolled back
+      if s.groups.any (fun h => h.nid == g.nid && h.gid != gid) then none
       else
         let msgs' := if Generated.sqlRestoreCascadesMessages then s.msgs.filter (·.gid != gid) else s.msgs
-        some { s with groups := groups' ++ [g], relays := ainsert gid p.relays (aerase gid s.relays),
+        some { s with groups := replaceGroup g s.groups, relays := ainsert gid p.relays (aerase gid s.relays),
                       secrets := secrets', mls := mls', msgs := msgs',
                       snaps := dropSnap gid p.name s.snaps }
 
